@@ -3216,7 +3216,6 @@ func runStoredCountIsNotLength(rr *RuleRun) {
 	}
 }
 
-
 // countDecidesSomething: the LengthInt result (directly or through the variable it is assigned to) is
 // compared, becomes a cty number, or becomes a length bound of a refinement / range.
 func countDecidesSomething(c *Ctx, info *types.Info, fd *ast.FuncDecl, call *ast.CallExpr) bool {
@@ -3294,7 +3293,6 @@ func countDecidesSomething(c *Ctx, info *types.Info, fd *ast.FuncDecl, call *ast
 	}
 	return res
 }
-
 
 // runSetEqualsWhollyKnown: in Value.Equals, wherever the branch conditions establish a set type, a
 // definite difference (a bool variable set to false, or a return of False) needs both operands wholly known.
@@ -4689,7 +4687,6 @@ func mentionsObj(info *types.Info, e ast.Node, o types.Object) bool {
 	return found
 }
 
-
 // ---------------------------------------------------------------------------
 // C08.error-not-dropped — the unread-error analysis of C17 outside the decoders
 
@@ -5238,7 +5235,6 @@ func stmtFallsThrough(info *types.Info, s ast.Stmt) bool {
 	}
 	return true
 }
-
 
 // ---------------------------------------------------------------------------
 // C19.unmark-transformer-unmarks, C12.jsonencode-prefix-constant
